@@ -5,6 +5,8 @@ sys.path.insert(0, os.path.dirname(__file__))
 import gen, corr
 
 if __name__ == "__main__":
+    import subprocess
+    subprocess.run(["cargo", "build", "--offline"], cwd="/verif/harness", capture_output=True)
     seed = int(sys.argv[1]); n = int(sys.argv[2]); prof = sys.argv[3] if len(sys.argv) > 3 else "mix"
     d = "/verif/work/diff"; os.makedirs(d, exist_ok=True)
     paths = []
